@@ -469,6 +469,13 @@ class CliRules:
             def on_strwrite(self, I, st, node, dst, args, argnodes, bounded):
                 self.strw.append((node, dst, args, bounded))
 
+            def on_memcpy(self, I, st, node, dst, src, size):
+                # a decoded key copied as a whole keeps its origin
+                if dst is not None and src is not None and dst[0] == 'p' and src[0] == 'p':
+                    ks = st.comps.get(('keysrc', src[1]))
+                    if ks is not None:
+                        st.comps[('keysrc', dst[1])] = ks
+
         L = Lst()
         I = interp.Interp(prog, listeners=[L], models=self.mk_models())
         st = interp.State()
@@ -773,12 +780,15 @@ class CliRules:
             s2 = st.copy()
             st.comps['parsed'] = 'null'
             s2.comps['parsed'] = 'ok'
-            s2.mem[(VP, (self.fields['mode'],))] = TOP
+            # the mode character is one fixed unknown: copies of it in locals are refined together with the field
+            s2.sym['$mode'] = (-128, 255)
+            s2.mem[(VP, (self.fields['mode'],))] = sym('$mode')
             return [(st, NULL), (s2, P(VP, ('vpak_t::buf', 0)))]
 
         def m_inter(I, st, fr, n, this, args, an):
             st.comps['parsed'] = 'interactive'
-            st.mem[(VP, (self.fields['mode'],))] = TOP
+            st.sym['$mode'] = (-128, 255)
+            st.mem[(VP, (self.fields['mode'],))] = sym('$mode')
             return [(st, P(VP, ('vpak_t::buf', 0)))]
 
         def m_exec(name):
@@ -828,7 +838,12 @@ class CliRules:
             n += 1
             op = s.comps.get('op')
             parsed = s.comps.get('parsed')
-            mode = setof(s.mem.get((VP, (self.fields['mode'],)), TOP)) if parsed != 'null' else None
+            mv_ = s.mem.get((VP, (self.fields['mode'],)), TOP)
+            mode = setof(mv_) if parsed != 'null' else None
+            if mode is None and parsed != 'null' and is_int(mv_) and mv_ != TOP:
+                r_ = rng(mv_, s.sym)
+                if r_ is not None and r_[1] - r_[0] <= 8:
+                    mode = set(range(r_[0], r_[1] + 1))
             zero = compare('==', v, C(0), s.sym) if is_int(v) else None
             if op is not None:
                 want = bool(op[1])
